@@ -659,6 +659,19 @@ func RunC05(tier string) int {
 	}
 	sum := RunSharded("C05", tier, units, deadlineFor(tier))
 	sum.Validated = sum.Evaluations // every op goes through the app's message router handlers / real keeper
+	// Engine G part: constant-product pools of two, three and four assets through the pure pool methods
+	{
+		mw := NewBareWorld()
+		j, nj, fs := c05mAll(mw)
+		mw.Close()
+		if sum.Clauses == nil {
+			sum.Clauses = map[string]int64{}
+		}
+		sum.Clauses["multiasset_join_exit_round_trips(pure pool methods, 2-4 assets)"] = j
+		sum.Clauses["multiasset_cases_not_judged(join or exit refused)"] = nj
+		sum.Evaluations += j + nj
+		sum.Findings = append(sum.Findings, fs...)
+	}
 	bounds := map[string]interface{}{"pools": names, "depth": depth, "ops_cpmm": len(c05Ops(c05Specs[0])), "ops_oracle": len(c05Ops(c05Specs[6])), "actor": "one joiner/exiter, one swapper, the founder holding the initial supply"}
 	return KConclude("C05", tier, "K: exhaustive join/exit/swap sequences through the real handlers on real pools vs exact rational value-per-share", "all sequences of length <= depth over {all-asset joins (share targets 1..3x supply / deposits in ratio, out of ratio, 3x the pool), single-asset joins (dust, 10 %), all-asset exits (1, 1e6, 1e18, half, all, all+1), single-asset exits (oracle pools), small/large swaps by another account, the founder exiting every share} on 11 real pools (CPMM 1:1 and 80:20, oracle balanced and off-target, scales 1e3/1e6/1e12); after every accepted join/exit the per-share value of the liquidity left behind is compared exactly",
 		[]string{"prices fixed during a sequence", "tolerance: one base unit per asset; 1e-8 of the minted shares for single-asset joins of weighted pools", "join-then-exit value clause for oracle pools is not judged when the rebalance treasury paid a bonus"}, sum, bounds,
@@ -666,6 +679,12 @@ func RunC05(tier string) int {
 			path, ok := toStrings(f.Input)
 			if !ok || len(path) == 0 {
 				return false
+			}
+			if c, ok := c05mParse(path[0]); ok {
+				mw := NewBareWorld()
+				defer mw.Close()
+				_, x := c05mRun(mw, mw.Ctx(), c)
+				return x != nil && x.Sig() == f.Sig()
 			}
 			e := c05Setup()
 			defer e.w.Close()
@@ -685,6 +704,20 @@ func init() {
 		path, ok := toStrings(r.Extra["input"])
 		if !ok || len(path) == 0 {
 			return 2
+		}
+		if c, ok := c05mParse(path[0]); ok {
+			mw := NewBareWorld()
+			defer mw.Close()
+			_, x := c05mRun(mw, mw.Ctx(), c)
+			if x != nil {
+				fmt.Printf("finding clause=%s disc=%s\n  %s\n", x.Clause, x.Disc, firstLines(x.Detail, 5))
+				if x.Sig() == r.Finding.Sig() {
+					fmt.Println("VIOLATION property=C05 replay=(reproduced)")
+					return 1
+				}
+			}
+			fmt.Println("replay: recorded finding not reproduced on this tree")
+			return 0
 		}
 		e := c05Setup()
 		defer e.w.Close()
